@@ -16,8 +16,14 @@ TECHNIQUE = ("Hypothesis-generated DAG histories with tags and pending merges "
              "reachability sandwich, tag rule)")
 RULE = ("history_spec DAG (merges, tags) built with BranchBuilder, a working "
         "tree on a generated tip with generated pending merges and a local "
-        "modification; (a) commit then uncommit; (b) uncommit of depth d with "
-        "keep_tags / dry_run / bound master / local. Non-trivial: a removed "
+        "modification; (a) commit then uncommit (also local commit + local "
+        "uncommit in a bound branch, a tag set on the new revision, "
+        "keep_tags); (b) uncommit of depth d with keep_tags / dry_run / bound "
+        "master / local / no tree, in one call or two calls on the same "
+        "branch and tree objects; several tags on one revision and a tag on an "
+        "absent revision; the documented refusals (local on an unbound branch, "
+        "master elsewhere than the local tip) change nothing. Non-trivial: a "
+        "removed "
         "revision is a merge, or depth >= 2 crossing a merge, or a tag must be "
         "dropped, or pending merges existed before the commit. Distinct by case "
         "hash.")
